@@ -48,8 +48,8 @@ impl ToTokens for Declaration<'_> {
     fn to_tokens(&self, tokens: &mut proc_macro2::TokenStream) {
         let ident = &self.0.ident;
         tokens.append_all(quote! {
-            let mut __fwd_attrs: ::darling::export::Vec<::darling::export::syn::Attribute> = vec![];
-            let mut #ident: ::darling::export::Option<_> = None;
+            let mut __fwd_attrs: ::darling::export::Vec<::darling::export::syn::Attribute> = ::darling::export::Vec::new();
+            let mut #ident: ::darling::export::Option<_> = ::darling::export::None;
         });
     }
 }
